@@ -193,6 +193,7 @@ func (u *Unit) run() {
 	old := st.clone()
 	st.old = old
 	old.old = nil
+	u.setupRefines(st, names)
 	env := &SpecEnv{names: names, pkg: u.pkg, what: u.name + " requires"}
 	for _, rq := range u.ct.Requires {
 		g, _ := u.evalSpecBool(st, rq.E, env, true)
@@ -331,6 +332,19 @@ func (u *Unit) checkExit(st *State, site int) {
 	for _, en := range u.ct.Ensures {
 		g, q := u.evalSpecBool(st, en.E, env, false)
 		u.oblige(st, fmt.Sprintf("ensures.%d@return.%d", en.N, site), "ensures", en.Text, g, q)
+	}
+	// refinement of an interface contract (post direction)
+	if u.refines != nil {
+		rn := map[string]*Val{}
+		for k, v := range u.refNames {
+			rn[k] = v
+		}
+		bindResults(rn, u.refines, u.refSig, st.rets)
+		renv := &SpecEnv{names: rn, oldNames: u.refNames, old: st.old, pkg: u.eng.pkgByPath(u.refines.Pkg), what: u.name + " refines " + u.refines.Key}
+		for _, en := range u.refines.Ensures {
+			g, q := u.evalSpecBool(st, en.E, renv, false)
+			u.oblige(st, fmt.Sprintf("refines(%s).ensures.%d@return.%d", u.refines.Key, en.N, site), "refines", en.Text, g, q)
+		}
 	}
 	// representation invariant of the receiver
 	if u.recvName != "" {
@@ -626,3 +640,79 @@ func (o *Obl) coverUndecided() bool {
 }
 
 var _ = token.NoPos
+
+// setupRefines: `refines pkg.Iface.Method` -- the implementation must accept whatever the interface contract
+// requires (pre direction, checked here) and deliver what it ensures (post direction, checked at every return).
+func (u *Unit) setupRefines(st *State, names map[string]*Val) {
+	f := u.ct.Flags["refines"]
+	if f == "" {
+		return
+	}
+	i := strings.LastIndex(f, ".")
+	if i < 0 {
+		u.eng.specError("%s: refines pkg.Iface.Method expected", u.name)
+		return
+	}
+	ifaceName, method := f[:i], f[i+1:]
+	t := u.resolveType(u.pkg, ifaceName)
+	it, ok := types.Unalias(t).Underlying().(*types.Interface)
+	if !ok {
+		u.eng.specError("%s: refines: %s is not an interface", u.name, ifaceName)
+		return
+	}
+	var m *types.Func
+	for k := 0; k < it.NumMethods(); k++ {
+		if it.Method(k).Name() == method {
+			m = it.Method(k)
+		}
+	}
+	if m == nil {
+		u.eng.specError("%s: refines: no method %s", u.name, method)
+		return
+	}
+	ct := u.eng.cs.Funcs[funcKey(m)]
+	if ct == nil || ct.Kind != "interface" {
+		u.eng.specError("%s: refines: no interface contract %s", u.name, funcKey(m))
+		return
+	}
+	u.usedContracts[funcKey(m)] = true
+	sig := m.Type().(*types.Signature)
+	rn := map[string]*Val{}
+	if u.recvName != "" {
+		rn["self"] = names[u.recvName]
+	}
+	// positional mapping of parameter names
+	k := 0
+	for _, fl := range u.ftype.Params.List {
+		for _, n := range fl.Names {
+			if k < sig.Params().Len() {
+				if pn := sig.Params().At(k).Name(); pn != "" && pn != "_" {
+					rn[pn] = names[n.Name]
+				}
+			}
+			k++
+		}
+		if len(fl.Names) == 0 {
+			k++
+		}
+	}
+	for g, v := range names {
+		if _, ok := rn[g]; !ok {
+			_ = v
+		}
+	}
+	u.refines, u.refSig, u.refNames = ct, sig, rn
+	// pre direction
+	rst := st.clone()
+	renv := &SpecEnv{names: rn, pkg: u.eng.pkgByPath(ct.Pkg), what: u.name + " refines " + ct.Key + " requires"}
+	for _, rq := range ct.Requires {
+		g, _ := u.evalSpecBool(rst, rq.E, renv, true)
+		rst.assume(g)
+	}
+	u.assumeRepInv(rst, names)
+	env := &SpecEnv{names: names, pkg: u.pkg, what: u.name + " requires"}
+	for _, rq := range u.ct.Requires {
+		g, q := u.evalSpecBool(rst, rq.E, env, false)
+		u.oblige(rst, fmt.Sprintf("refines(%s).requires.%d", ct.Key, rq.N), "refines", rq.Text, g, q)
+	}
+}
